@@ -33,9 +33,16 @@ class MarkerProgram:
         mk, bl = self.mk, self.byteslit
         src = '''package main
 
-import "fmt"
+import (
+	"fmt"
+
+	"gv.test/markers/lib"
+)
 
 type Named string
+
+const typedPart string = "%(typed_part_a)s"
+const typedLabel string = "%(typed_label)s"
 
 const konst = "%(const_decl)s"
 const typedKonst Named = "%(typed_const)s"
@@ -97,9 +104,16 @@ func main() {
 	}
 	fmt.Println(use(s.F), useb(s.B), use(f()), use(g), use(nosplit()), use(generic(1)), label("%(call_arg)s"), use(initVar))
 	fmt.Println(use(fmt.Sprintf("%%s", "%(verb_arg)s")), use([]string{"%(slice_elem)s"}[0]), use(ret()))
+	fmt.Println(use(oversized()), use(string(labelled())), use(lib.Injected()), use(lib.Other))
 }
 
 func ret() string { return "%(return_stmt)s" }
+
+//go:noinline
+func oversized() string { return typedPart + "%(typed_part_b)s" + "%(typed_part_c)s" }
+
+//go:noinline
+func labelled() Named { return Named(typedLabel) }
 '''
         vals = {
             # a const DECLARATION is skipped, but every USE of the constant in a string-typed position is rewritten; the
@@ -126,7 +140,21 @@ func ret() string { return "%(return_stmt)s" }
             "concat_a": mk(True, "left operand of a constant concatenation", 20), "concat_b": mk(True, "right operand of a constant concatenation", 20),
             "call_arg": mk(True, "call argument"), "verb_arg": mk(True, "variadic interface argument"),
             "slice_elem": mk(True, "[]string element"), "return_stmt": mk(True, "return statement"),
+            # a concatenation of typed string constants that is too long as a whole: every operand is rewritten on its own
+            "typed_part_a": mk(True, "typed constant operand of an oversized concatenation", 900),
+            "typed_part_b": mk(True, "literal operand of an oversized typed concatenation", 900),
+            "typed_part_c": mk(True, "second literal operand of an oversized typed concatenation", 900),
+            "typed_label": mk(True, "typed string constant converted to a defined string type", 48),
         }
+        # another package has a variable with the NAME of main's -X target: it is not a linker target itself
+        self.lib = '''package lib
+
+var injected = "%s"
+
+var Other = "%s"
+
+func Injected() string { return injected }
+''' % (mk(True, "variable named like main's -X target, in another package"), mk(True, "package var of a dependency"))
         return src % vals
 
 
@@ -142,7 +170,7 @@ def main(tier, replay=None):
         for i, seed in enumerate(seeds):
             mp = MarkerProgram(rnd)
             src = mp.source()
-            root = E.write_module("m%d" % i, {"go.mod": "module gv.test/markers\n\ngo 1.26\n", "main.go": src})
+            root = E.write_module("m%d" % i, {"go.mod": "module gv.test/markers\n\ngo 1.26\n", "main.go": src, "lib/lib.go": mp.lib})
             linker = mp.markers[2][0]
             gflags = ["-literals"] + (["-seed=" + seed] if seed else [])
             pb = E.run_go(["build", "-trimpath", "-o", "plain", "."], root)
